@@ -15,6 +15,9 @@ func (Segment).GetOffset
     def s.Offset
 
 // ---------------------------------------------------------------- ghost directory
+// bookkeeping of successful calls per operation ("migrate", "headcheck"): set by the contracts of Migrate, Check and
+// Recover (a definition, not a proof obligation), read by the ordering clauses of Open (C05, C17)
+ghost var gDone map[string]int
 ghost var fsContent map[string]int     // abstract content id of the log file at a path
 
 // reads the index file, or rebuilds it from the log when missing/header-only.
@@ -152,7 +155,8 @@ func (Segment).Stat
 func (Segment).Check
     flags noframe only_check only_derive
     requires[check_ok] absDef(fsContent[s.Log])
-    assigns fPath
+    assigns fPath, gDone
+    ensures gDone["headcheck"] == old(gDone)["headcheck"] + ite(err == nil, 1, 0) && gDone["migrate"] == old(gDone)["migrate"]
     ensures[check_damaged] !tailClean(old(fsContent)[s.Log]) ==> err != nil
     // the three outcomes after a complete parse: no index file: accepted; unreadable index: its error;
     // readable index: accepted iff equal to the derived index
@@ -185,7 +189,8 @@ func (Segment).Recover
     // C05 crash invariant tempFresh: the temp file about to be written does not exist (a stale one
     // left by an interrupted earlier recovery would be appended to)
     assert[crash_tempfresh] !fsExists[s.Log + ".recover"] at call message.OpenWriter 1
-    assigns fPath, fsDirty, fsExists, fsContent, dirDirty, index.Writer.pos
+    assigns fPath, fsDirty, fsExists, fsContent, dirDirty, index.Writer.pos, gDone
+    ensures gDone["headcheck"] == old(gDone)["headcheck"] + ite(err == nil, 1, 0) && gDone["migrate"] == old(gDone)["migrate"]
     loop 1
       invariant[sync] wrOK(restore)
       invariant[recover_state] !corrupted && restore != nil && restore.Path == s.Log + ".recover"
@@ -204,13 +209,25 @@ func (Segment).Migrate
     assert[version_differs] oldLog.v != mversion at call message.OpenWriter 1
     // ... otherwise the copy is written in the target message version and indexed in the target index version
     assert[version_log]     arg2 == mversion && arg1 == s.Offset at call message.OpenWriter 1
-    assert[version_index]   arg2 == iversion && arg0 == s.Index && arg1 == s.Offset && arg3 == params at call index.Write 1
+    assert[version_index]   arg2 == iversion && arg0 == s.Index && arg1 == s.Offset && arg3 == params && arg4 == migratedIndex at call index.Write 1
+    // ... and that index is the one derived from the records of the old file: every record, its offset, the
+    // running-maximum timestamp and the key hash (positions are those the writer of the copy returned)
+    requires[abs_ok]        absDef(fsContent[s.Log])     // holds of every file (definition of the record abstraction)
+    assert[version_all]     len(migratedIndex) == recN(oldLog.gfile) at call index.Write 1
     assert[version_inplace] arg0 == migratedLog.Path && arg1 == s.Log && migratedLog.Path == s.Log + ".migrate" at call os.Rename 1
     assert[crash_tempfresh] !fsExists[s.Log + ".migrate"] at call message.OpenWriter 1
-    assigns fPath, fsDirty, fsExists, fsContent, dirDirty, index.Writer.pos
+    assigns fPath, fsDirty, fsExists, fsContent, dirDirty, index.Writer.pos, gDone
+    ensures gDone["migrate"] == old(gDone)["migrate"] + ite(err == nil, 1, 0) && gDone["headcheck"] == old(gDone)["headcheck"]
     ensures[sync_dir] err == nil && s.AutoSync && fsContent[s.Log] != old(fsContent[s.Log]) ==> !dirDirty[s.Dir]
     loop 1
       invariant[sync] wrOK(migratedLog)
+      invariant[version_file]  oldLog != nil && oldLog.gfile == old(fsContent)[s.Log] && atIdx(oldLog.gfile, oldPosition)
+      invariant[version_count] len(migratedIndex) == recIdx(oldLog.gfile, oldPosition)
+                                   && indexTime == ite(len(migratedIndex) > 0, migratedIndex[len(migratedIndex)-1].Timestamp, 0)
+      invariant[version_items] forall k :: 0 <= k && k < len(migratedIndex) ==>
+                                   migratedIndex[k].Offset == recOffset(oldLog.gfile, k)
+                                   && migratedIndex[k].Timestamp == ite(params.Times, recTs(oldLog.gfile, k), 0)
+                                   && migratedIndex[k].KeyHash == ite(params.Keys, recHash(oldLog.gfile, k), 0)
 
 // fixed bytes a record occupies besides key and value
 pred hdrSize(v message.Version) := ite(v == message.V1, 28, ite(v == message.V2, 36, 0))
